@@ -227,7 +227,11 @@ func evalBits(c *Ctx, k caseT, model string) {
 	f := strings.Fields(k.line)
 	buf := Unhx(f[2])
 	ops := f[3:]
-	impl := strings.Join(implBits(buf, ops), ",")
+	gr, ok := guard(c, k, "bits-reader", func() interface{} { return implBits(buf, ops) })
+	if !ok {
+		return
+	}
+	impl := strings.Join(gr.([]string), ",")
 	c.Eval(k.line, len(ops) >= 2)
 	c.Count("bits:scripts")
 	if strings.HasSuffix(impl, "panic") {
@@ -352,7 +356,12 @@ func evalEpb(c *Ctx, k caseT, model string) {
 	f := strings.Fields(k.line)
 	b := Unhx(f[2])
 	m := KV(model)
-	impl := implEpb(b)
+	ins := append([]byte{0x67}, Unhx(m["ins"])...)
+	gr, ok := guard(c, k, "epb-remove", func() interface{} { return [2]string{implEpb(b), implEpb(ins)} })
+	if !ok {
+		return
+	}
+	impl, back := gr.([2]string)[0], gr.([2]string)[1]
 	c.Eval(k.line, len(b) >= 3)
 	c.Count("epb:cases")
 	if strings.Contains(f[2], "000003") {
@@ -362,8 +371,6 @@ func evalEpb(c *Ctx, k caseT, model string) {
 		c.Find(Finding{Kind: "corr", Class: "epb-remove", Case: k.line, Impl: impl, Model: m["model"]})
 	}
 	// oracle: removal inverts the standard's insertion (a NAL header byte 0x67 in front, as in a real unit)
-	ins := append([]byte{0x67}, Unhx(m["ins"])...)
-	back := implEpb(ins)
 	want := Hx(append([]byte{0x67}, b...))
 	if back != want {
 		c.Find(Finding{Kind: "oracle", Class: "epb-roundtrip", Case: k.line, Impl: back, Spec: want, Detail: "RemoveH264or5EmulationBytes(header ++ insertEpb(payload)) ≠ header ++ payload"})
